@@ -495,5 +495,40 @@ func (w *World) ledgerKind(v ssa.Value) (kind string, desc string) {
 			return "self", desc
 		}
 	}
+	// a ledger handed out by a module helper: what every feasible return of the helper is
+	var call *ssa.Call
+	idx := 0
+	switch y := v.(type) {
+	case *ssa.Extract:
+		call, _ = y.Tuple.(*ssa.Call)
+		idx = y.Index
+	case *ssa.Call:
+		call = y
+	}
+	if call != nil && w.ledgerKindDepth < 2 {
+		if cal := call.Common().StaticCallee(); cal != nil && w.InModule(cal) && cal.Blocks != nil {
+			saved := w.shallowResolve
+			w.shallowResolve = true
+			vals, complete := w.returnedValues(cal, idx, func(ssa.Value) (bool, bool) { return false, false }, 1)
+			w.shallowResolve = saved
+			kind := ""
+			for _, x := range vals {
+				if c, isC := x.(*ssa.Const); isC && c.IsNil() {
+					continue
+				}
+				w.ledgerKindDepth++
+				k, _ := w.ledgerKind(x)
+				w.ledgerKindDepth--
+				if kind == "" {
+					kind = k
+				} else if kind != k {
+					kind = "unknown"
+				}
+			}
+			if complete && kind != "" && kind != "unknown" {
+				return kind, desc
+			}
+		}
+	}
 	return "unknown", desc
 }
